@@ -1314,26 +1314,42 @@ class _Gen:
             nfile += 1
 
     def mk_generic_dependent(self):
+        r = self.rnd
         name = self.fresh("pk")
         it = Item(name, "generic")
         it.is_function = True
-        op = self.rnd.choice(["+", "*", "-"])
+        op = r.choice(["+", "*", "-"])
         it.render = lambda ref: "%s :: (comptime T: type, comptime v: T, x: T) -> T {\n    x %s v\n}" % (name, op)
-        a, b = self.rnd.randint(1, 9), self.rnd.randint(1, 9)
+        a, b = r.randint(1, 9), r.randint(1, 9)
         it.uses = lambda ref, tmp: ["emit(%s(i64, %d, %d));" % (ref(name), a, b),
                                     "emit(i64.(%s(i32, %d, %d)));" % (ref(name), b, a)]
         self.p.add(it)
-        # a non-generic caller, so that the call can sit in another file than the generic function
-        cname = self.fresh("cp")
-        cit = Item(cname, "fn")
-        cit.is_function = True
-        cit.deps.add(name)
-        k = self.rnd.randint(1, 9)
-        cit.render = lambda ref: "%s :: (a: i64) -> i64 {\n    %s(i64, %d, a %% 50)\n}" % (cname, ref(name), k)
-        arg = self.rnd.randint(0, 40)
-        cit.uses = lambda ref, tmp: ["emit(%s(%d));" % (ref(cname), arg)]
-        self.p.add(cit)
-        self.int_fns.append(cname)
+        # non-generic callers, so that the calls can sit in other files than the generic function.
+        # Each uses another T, and arguments that mean something else under another caller's T
+        # (a float literal, an integer that does not fit the narrower type): whatever is
+        # remembered from one instantiation must not leak into the next.
+        shapes = [("i64", lambda k: str(100000 + k), "a %% 50"),
+                  ("f64", lambda k: "%d.5" % k, "f64.(a %% 50) + 0.25"),
+                  ("u8", lambda k: str(k + 1), "u8.(a %% 50)"),
+                  ("i32", lambda k: str(70000 + k), "i32.(a %% 50)"),
+                  ("f32", lambda k: "%d.25" % k, "f32.(a %% 50)")]
+        for t, kv, xv in r.sample(shapes, r.randint(1, 3)):
+            cname = self.fresh("cp")
+            cit = Item(cname, "fn")
+            cit.is_function = True
+            cit.deps.add(name)
+            k = r.randint(1, 9)
+            body = "@PK@(%s, %s, %s)" % (t, kv(k), xv.replace("%%", "%"))
+            if t.startswith("f"):
+                body = "i64.(%s * 4.0)" % body
+            elif t != "i64":
+                body = "i64.(%s)" % body
+            cit.render = (lambda ref, cname=cname, body=body:
+                          "%s :: (a: i64) -> i64 {\n    %s\n}" % (cname, body.replace("@PK@", ref(name))))
+            arg = r.randint(0, 40)
+            cit.uses = (lambda ref, tmp, cname=cname, arg=arg: ["emit(%s(%d));" % (ref(cname), arg)])
+            self.p.add(cit)
+            self.int_fns.append(cname)
 
     # --- rung 4 ------------------------------------------------------------------------
     def _int_anchor(self, item):
